@@ -104,9 +104,7 @@ func sweepV3[T comparable, P Object[T]](r *Report, im *Impl[T, P]) {
 		if w.Ambiguous {
 			amb.Add(idx, 1)
 		}
-	}, func(a spec.Assignment, why string) {
-		r.Violation(Case{Kind: "v3-score", Key: "v" + ver.Name + "/score/cannot-build", Expected: "object built by Set reads back", Observed: why, Args: map[string]any{"version": ver.Name, "vector": ver.Full(a)}}, nil)
-	}, r.TooMany)
+	}, iterBad(r, im, dims3, v3bg(ver), "v3-score"), r.TooMany)
 	n := int64(16588800)
 	r.States.Add(n)
 	r.Transitions.Add(n * 5)
